@@ -22,6 +22,9 @@ ASSUMPTIONS = ["redb tuple key order equals component-wise byte order", "blake3 
 SI = "<store::fs::StoreInstance<'a> as ranger::Store<sync::SignedEntry>>::"
 
 
+EXPLANATION += ' (R5, round 10) RecordsRange::next evaluated call after call over scripted rows: every row of the scan in scan order, markers included; a failing row is an error.'
+
+
 def _fields(body, op, **kw):
     out = set()
     for o in trace(body, op, **kw):
